@@ -1097,6 +1097,9 @@ func showOpt(i Int, has bool) string {
 	if !has {
 		return ""
 	}
+	if !i.IsConst() && i.Name != "" {
+		return i.Name
+	}
 	return Show(i)
 }
 
@@ -1306,6 +1309,20 @@ func (m *Machine) convInt(i Int, from, to types.Type) Val {
 	}
 	bits, signed, _ := typeBits(to)
 	fb, fs, fok := typeBits(from)
+	if i.L != nil && fok && !fs && (fb < bits || fb == bits && !signed) {
+		// zero-extension keeps the value and its byte lanes
+		l := make([]string, bits/8)
+		for k := range l {
+			if k < len(i.L) {
+				l[k] = i.L[k]
+			} else {
+				l[k] = "0"
+			}
+		}
+		r := i
+		r.L = l
+		return r
+	}
 	if i.Top {
 		if fok && (fb < bits && (!fs || signed) || fb == bits && fs == signed) {
 			return Int{Top: true, Name: i.Name}
